@@ -546,7 +546,8 @@ class C02(TraceProp):
 class C11(TraceProp):
     id = 'C11'
     theorems = ['Continuum.c11_holds', 'Continuum.c11_pk_unique', 'Continuum.specOp_insert_first',
-                'Continuum.specOp_snoc_ins', 'Continuum.specOp_snoc_del']
+                'Continuum.specOp_snoc_ins', 'Continuum.specOp_snoc_del', 'Continuum.cacheComplete_run',
+                'Continuum.fresh_version_object_safe']
     sections = ('versions', 'mgr')
     seg_fields = ('C11',)
     weights = {'flush': 12, 'commit': 1, 'rollback': 0, 'del': 5, 'readd': 5, 'add': 5, 'query': 2, 'sp_begin': 2, 'sp_commit': 3, 'sp_rollback': 2}
